@@ -66,6 +66,9 @@ def parts_ok(xs: List[int]) -> bool:
     ps = list(partitions(xs))
     if len(ps) != BELL[N]:
         return False
+    # enumeration is a pure function of its argument: asking again (searches are re-run in one process) gives the same
+    if list(partitions(list(xs))) != ps or list(partitions(tuple(xs))) != ps:
+        return False
     blocks = []
     for p in ps:
         if not isinstance(p, tuple) or any(not isinstance(part, tuple) or len(part) == 0 for part in p):
